@@ -820,11 +820,12 @@ func run(seed uint64, n int, dir string, deepmp int) {
 	rn := &runner{g: &gen{r: vh.NewRng(vh.NewRng(seed ^ 0xC18C18C18).U64())}, o: o, root: root, specs: map[string]*colSpec{}, replays: bufio.NewWriter(rf),
 		statusCt: map[string]int{}, mutCt: map[string]int{}, distinct: map[string]struct{}{}}
 	rn.w = &world{fails: &fails}
-	rn.w.users = []struct{ user, plan string }{{"alice", "BASIC"}, {"bob", "TINY"}, {"carol", "BIG"}}
+	rn.w.users = []struct{ user, plan string }{{"alice", "BASIC"}, {"bob", "TINY"}, {"carol", "BIG"}, {"dave", "BASIC"}}
 	rn.restart()
 	defer func() { rn.w.c.kill() }()
 
 	rn.pureOps()
+	rn.boundarySweep()
 	t0 := time.Now()
 	for i := 0; i < n; i++ {
 		rn.iteration(i)
